@@ -308,21 +308,21 @@ Definition panic_table : list (string * string) := [
    "generic type instantiation, not an index expression")].
 
 Definition range_table : list (string * string) := [
-  ("x/oracle/abci.go|EndBlocker|range|_ exits=0 calls=SetMissCount",
+  ("x/oracle/abci.go|EndBlocker|range|_ exits=0 calls=SetMissCount assigns=0",
    "miss counting: one independent store write per validator address, no shared state, no early exit; MODELLED as fold_left bump_miss over missers (order irrelevance: C07_miss_order_free)");
-  ("x/oracle/keeper/feeder.go|Keeper.RewardBallotWinners|range|_ exits=0 calls=",
+  ("x/oracle/keeper/feeder.go|Keeper.RewardBallotWinners|range|_ exits=0 calls= assigns=0",
    "weight sum: integer addition is commutative, no effectful call, no exit; MODELLED as sumZ over the winners (C07_reward_order_free)");
-  ("x/oracle/keeper/feeder.go|Keeper.RewardBallotWinners|range|_ exits=1 calls=AllocateTokensToValidator",
+  ("x/oracle/keeper/feeder.go|Keeper.RewardBallotWinners|range|_ exits=1 calls=AllocateTokensToValidator assigns=2",
    "per-validator AllocateTokensToValidator / DecCoins.Add commute; the one exit is 'validator not found', impossible for a member of the claim map built from the staking store in the same block; the bank transfer happens ONCE, after the loop; MODELLED as sums over the claim list (C07_reward_order_free)");
-  ("x/oracle/voteprocessor/voteprocessor.go|*VoteProcessor[Source, Data].TallyVotes|range|_ exits=0 calls=",
+  ("x/oracle/voteprocessor/voteprocessor.go|*VoteProcessor[Source, Data].TallyVotes|range|_ exits=0 calls= assigns=0",
    "per-source decision written into a result map keyed by the source, no exit; MODELLED as tally_results (C07_tally_order_free)");
-  ("x/oracle/voteprocessor/voteprocessor.go|*VoteProcessor[Source, Data].TallyVotes|range|_ exits=0 calls=",
+  ("x/oracle/voteprocessor/voteprocessor.go|*VoteProcessor[Source, Data].TallyVotes|range|_ exits=0 calls= assigns=0",
    "the inner loop over the votes of ONE source is a slice (the scanner keys on the variable name, which shadows the map): ordered");
-  ("x/oracle/voteprocessor/voteprocessor.go|*VoteProcessor[Source, Data].TallyVotes|range|_ exits=0 calls=",
+  ("x/oracle/voteprocessor/voteprocessor.go|*VoteProcessor[Source, Data].TallyVotes|range|_ exits=0 calls= assigns=0",
    "Miss flags only ever set to true (idempotent), no exit; MODELLED as missers (C07_missers_order_free)");
-  ("x/oracle/voteprocessor/voteprocessor.go|*VoteProcessor[Source, Data].pickMostVoted|range|_ exits=0 calls=",
+  ("x/oracle/voteprocessor/voteprocessor.go|*VoteProcessor[Source, Data].pickMostVoted|range|_ exits=0 calls= assigns=0",
    "filters the counts above the threshold into another map: set semantics (pick_spec)");
-  ("x/oracle/voteprocessor/voteprocessor.go|*VoteProcessor[Source, Data].pickMostVoted|range|_ exits=1 calls=",
+  ("x/oracle/voteprocessor/voteprocessor.go|*VoteProcessor[Source, Data].pickMostVoted|range|_ exits=1 calls= assigns=0",
    "executed only when that map has exactly one entry: the early return takes that entry (pick_spec)")].
 
 (* a time.Now() whose value can only reach a telemetry.* call (metrics sink) is not listed by the scanner at all *)
